@@ -1039,9 +1039,17 @@ class mulgrid(object):
                         col2.neighbour.add(c)
                         c.neighbour.add(col2)
                     del col.node[i[3]]
+                    n3.column.remove(col)
                     col.centre = col.centroid
+                    col.get_area()
+                    col2.num_layers = col.num_layers
                     self.add_column(col2)
                     self.add_connection(connection([col, col2]))
+                    col.neighbour.add(col2)
+                    col2.neighbour.add(col)
+                    # connections are keyed by column names:
+                    self.connection = dict([(tuple([c.name for c in con.column]), con)
+                                            for con in self.connectionlist])
                     self.setup_block_name_index()
                     self.setup_block_connection_name_index()
                     return True
